@@ -11,6 +11,8 @@ CONSTANTS
   CrashBudget = 0
   AdvBudget = 0
   Debris <- NoDebris
+  FrontKind = "plain"
+  KeyShards <- NoKeyShards
 VIEW View
 INVARIANTS InvDirValid InvDebris InvHandle InvNoErr
 PROPERTIES StepImmutable StepReadOnlyFirst StepRemoval StepRegister StepGetLin
